@@ -36,8 +36,10 @@ _c('C03', 'Proved on the step model: no instruction diverts a vehicle with passe
           'request Waiting at that moment, so after a pickup or cancel of an id there is no further one unless the id is admitted again (C03_closed_once). PARTIAL: drop-off exactly once by the same vehicle over histories.',
    'Coq proof: per-transition lemmas + event-log ledger invariant by induction over operation histories (macro frame theorem); correspondence; ledger monitor', 'No pooling.')
 _c('C05', 'Proved: a charge step derives one (kwh, price = kwh x tariff) and applies it to vehicle, station and event in one update; payment conserved; gained = level rise (kernels regenerated). '
-          'PARTIAL: sums over whole histories decided by correspondence + ledger monitor.',
-   'Coq proof over step model + translated payment/energy kernels; correspondence; ledger monitor')
+          'Proved over ALL finite histories of step operations, any controller, from a loaded state (C05_books_over_histories, macro frame theorem): each vehicle\'s balance = initial + fares of its pickup events - prices of its '
+          'charge events and its energy_gained grew by its charge events\' energies; each station\'s balance grew by the prices and its energy_dispensed (per energy type) by the energies of the charge events there. '
+          'PARTIAL: regrouping of the per-entity sums into fleet totals (ledger monitor).',
+   'Coq proof: step model + translated payment/energy kernels + event-log accounting relation composed over operation histories (macro frame theorem); correspondence; ledger monitor')
 _c('C07', 'Proved: every accepted enter() (instruction of any controller or default transition) has established the location facts (vehicle at station/base; route starts at vehicle and ends at '
           'target); trips start at the origin and end at the destination. Proved over ALL finite histories of step operations, any controller (C07_places_over_histories, macro frame theorem): '
           'every vehicle charging or queueing at a station is at that station\'s location, every vehicle parked or charging at a base is at that base\'s location. '
@@ -61,8 +63,9 @@ _c('C18', 'Proved: the update order is non-queued first then queued sorted by th
           'PARTIAL: the step from processing order to "never left waiting" (needs can_use) decided by correspondence + FIFO monitor.',
    'Coq proof about the processing order (sortedness, permutation) + correspondence + FIFO trace monitor')
 _c('C19', 'Proved: each state-changing primitive files exactly one event carrying exactly the change (move distance = odometer growth, charge energy = level rise, price = amount moved, pickup stamped at the '
-          'step start). PARTIAL: whole-run sums, station load, summary counts and the file round-trip decided by the log engine + monitors.',
-   'Coq proof of event/state lemmas on the step model + correspondence on event multisets + monitors')
+          'step start). Proved over ALL finite histories, any controller (C19_events_explain_vehicles): per vehicle the move events\' distances sum to the odometer growth and the charge events\' energies to the growth of energy_gained; '
+          'pickup / cancel / add events vs the waiting map: C03_ledger_over_histories. PARTIAL: station-load events, summary counts and the file round-trip decided by the log engine + monitors.',
+   'Coq proof: event/state lemmas + event-log accounting over operation histories (macro frame theorem); correspondence on event multisets; monitors; event.log engine')
 _c('C20', 'Proved: regenerated time_in_range is start-inclusive/end-exclusive with wrap-around and empty when start=end; time of day periodic; a driver update sets availability to the schedule verdict at the '
           'step start and files an event exactly on a flip. PARTIAL: dispatcher never assigning off-shift drivers decided by the dispatcher engine.',
    'Coq proof over translated time_in_range + driver-update lemma; correspondence; shift monitor')
